@@ -606,7 +606,7 @@ package tmi
 // ---- future-round votes in the kernel (C05, C09): merged with what the round store holds and written back ----
 // (Totality and the answers only; that what is written back stays verified is not claimed for these two functions.)
 //@ func Kernel.addFuturePrevote
-//@   property C05 C09
+//@   property C09
 //@   requires k.rStore != nil && k.cmspScheme != nil && k.sigScheme != nil
 //@   requires s.Voting.Round < MAXU32 && s.Voting.Height >= 1 && (s.Voting.Height == s.Committing.Height + 1 || s.Committing.Height == 0)
 //@   requires forall h string :: {rawdom(req.Prevotes)[h]} h in req.Prevotes ==> mapvals(req.Prevotes)[h] != nil
@@ -617,7 +617,7 @@ package tmi
 //@   loop 2 invariant merged-map: existingFullProofs != nil && (forall h string :: {rawdom(existingFullProofs)[h]} h in existingFullProofs ==> mapvals(existingFullProofs)[h] != nil)
 //@   loop 2 invariant to-store-private: toStore.BlockSignatures != nil && fresh(toStore.BlockSignatures)
 //@ func Kernel.addFuturePrecommit
-//@   property C05 C09
+//@   property C09
 //@   requires k.rStore != nil && k.cmspScheme != nil && k.sigScheme != nil
 //@   requires s.Voting.Round < MAXU32 && s.Voting.Height >= 1 && (s.Voting.Height == s.Committing.Height + 1 || s.Committing.Height == 0)
 //@   requires forall h string :: {rawdom(req.Precommits)[h]} h in req.Precommits ==> mapvals(req.Precommits)[h] != nil
